@@ -97,6 +97,8 @@ def mk_settings(d):
             v = tuple(v)
         elif f == "dhParams" and v is not None:
             v = (int(v[0]), int(v[1]))
+        elif f == "ticketKeys":
+            v = [bytearray.fromhex(k) for k in v]
         elif f == "pskConfigs":
             v = [tuple([bytearray.fromhex(p[0]), bytearray.fromhex(p[1])] + list(p[2:])) for p in v]
         elif isinstance(v, list):
@@ -409,32 +411,49 @@ def run_case(case):
     return L, cap
 
 
+TICKET_KEY = "5a" * 32
+
+
 def run_resume(case):
-    """TLS <= 1.2 session-ID resumption: a full handshake under (cs, ss) that fills the server's session
-    cache, then a second connection offering that session under (cs2, ss2).  Returns (L1, L2, cap2);
-    L2 is None when the first handshake did not complete."""
+    """Two connections: a full handshake under (cs, ss), then a second one offering the session of the first
+    under (cs2, ss2).  mode 'id': TLS <= 1.2 session-ID resumption from the server's SessionCache;
+    'ticket12': TLS <= 1.2 session ticket (server ticketKeys, no cache); 'tls13': TLS 1.3 ticket / PSK.
+    Returns (L1, L2, cap2); L2 is None when the first handshake did not complete."""
     from tlslite.sessioncache import SessionCache
     from .. import lab
-    cache = SessionCache()
+    mode = case["resume"].get("mode", "id")
+    cache = SessionCache() if mode == "id" else None
     chain, key = lab.creds(case["scred"])
     sni = case["sni"]
+    ckw = {}
+    if case.get("ccred"):
+        cchain, ckey = lab.creds(case["ccred"])
+        ckw = {"certChain": cchain, "privateKey": ckey}
 
     def one(csd, ssd, session, calpn, salpn):
         L = lab.Lab()
         cap = Capture()
         cap.install(L)
+        if mode != "id":
+            ssd = dict(ssd, ticketKeys=[TICKET_KEY])
         cs, ss = mk_settings(csd), mk_settings(ssd)
         a_c = [bytearray(a) for a in calpn] if calpn else None
         a_s = [bytearray(a) for a in salpn] if salpn else None
-        L.start_client(lambda c: c.handshakeClientCert(settings=cs, session=session, serverName=sni, alpn=a_c, async_=True))
+        L.start_client(lambda c: c.handshakeClientCert(settings=cs, session=session, serverName=sni, alpn=a_c,
+                                                       async_=True, **ckw))
         L.start_server(lambda c: c.handshakeServerAsync(certChain=chain, privateKey=key, settings=ss,
-                                                         sessionCache=cache, alpn=a_s))
+                                                         sessionCache=cache, alpn=a_s,
+                                                         reqCert=bool(case.get("reqCert"))))
         L.run()
         return L, cap
 
     L1, _ = one(case["cs"], case["ss"], None, case["calpn"], case["salpn"])
     if not (L1.client.state == "done" and L1.server.state == "done"):
         return L1, None, None
+    if mode == "tls13":
+        # NewSessionTicket messages follow the handshake: let the client read them
+        L1.write("server", b"ping")
+        L1.read("client", max=4)
     r = case["resume"]
     L2, cap2 = one(r["cs2"], r["ss2"], L1.client.conn.session, r.get("calpn2", case["calpn"]), r.get("salpn2", case["salpn"]))
     return L1, L2, cap2
@@ -449,8 +468,17 @@ def oracle_resumed(ctx, case, L, cap):
     ss, _ = validated(r["ss2"])
     oc, os_ = lab.observe(L.client.conn), lab.observe(L.server.conn)
     bad = []
+    mode = r.get("mode", "id")
     for f in VIEW_FIELDS + ["resumed"]:
-        if oc.get(f) != os_.get(f):
+        a, b = oc.get(f), os_.get(f)
+        if f == "serverName":
+            a, b = a or None, b or None          # '' and None both say "no name"
+        if f == "serverCertChain" and mode == "ticket12" and b is None and oc.get("resumed"):
+            # a stateless TLS <= 1.2 ticket carries the client's chain but, by design (RFC 5077 section 4), not
+            # the server's own: the rebuilt server session has none.  Not recorded is not a conflicting value.
+            ctx.count("note:ticket-resumed server session has no serverCertChain")
+            continue
+        if a != b:
             bad.append(("c03:resumption:view-differs:" + f, "client holds %r, server holds %r for %s after the second handshake"
                         % (short(oc.get(f)), short(os_.get(f)), f)))
     if oc["version"] >= (3, 1):
@@ -467,6 +495,21 @@ def oracle_resumed(ctx, case, L, cap):
     if not (os_["send_limit"] <= oc["recv_limit"]):
         bad.append(("c03:resumption:record-limit", "server sends up to %d, client accepts %d" % (os_["send_limit"], oc["recv_limit"])))
     v, suite = oc["version"], oc["cipherSuite"]
+    # the flags of a connection and of its own session object must tell the same story
+    for who, o in (("client", oc), ("server", os_)):
+        if tuple(v) < (3, 4) and bool(o["etm"]) != bool(o["session_etm"]):
+            bad.append(("c03:resumption:%s-etm-flag-differs-from-session" % who,
+                        "%s connection runs encrypt-then-MAC=%s, its session says %s" % (who, o["etm"], o["session_etm"])))
+        if tuple(v) < (3, 4) and bool(o["ems"]) != bool(o["session_ems"]):
+            bad.append(("c03:resumption:%s-ems-flag-differs-from-session" % who,
+                        "%s connection extended master secret=%s, its session says %s" % (who, o["ems"], o["session_ems"])))
+    # the suite must be one the negotiated version defines
+    sem0 = t["sem"].get(suite)
+    if sem0 is not None:
+        is13 = sem0[2] == "tls13"
+        if is13 != (tuple(v) >= (3, 4)) or (sem0[1] in ("aead", "sha256", "sha384") and tuple(v) < (3, 3)):
+            bad.append(("c03:resumption:suite-not-defined-for-version",
+                        "suite 0x%04x (%s/%s) in use at version %s" % (suite, sem0[0], sem0[1], v)))
     for who, st in (("client", cs), ("server", ss)):
         if not (tuple(st.minVersion) <= tuple(v) <= tuple(st.maxVersion)):
             bad.append(("c03:resumption:%s-version-outside-policy" % who, "version %s, %s now allows %s..%s" % (v, who, st.minVersion, st.maxVersion)))
@@ -479,97 +522,156 @@ def oracle_resumed(ctx, case, L, cap):
             bad.append(("c03:resumption:%s-cipher-outside-policy" % who, "suite 0x%04x uses %s, %s now allows %s" % (suite, ciph, who, st.cipherNames)))
         if mac not in st.macNames:
             bad.append(("c03:resumption:%s-mac-outside-policy" % who, "suite 0x%04x uses MAC %s, %s now allows %s" % (suite, mac, who, st.macNames)))
-        if kex not in st.keyExchangeNames:
+        if kex != "tls13" and kex not in st.keyExchangeNames:
             bad.append(("c03:resumption:%s-kex-outside-policy" % who, "suite 0x%04x uses %s, %s now allows %s" % (suite, kex, who, st.keyExchangeNames)))
     return bad
 
 
-def evaluate_resume(ctx, case):
-    if validated(case["cs"])[0] is None or validated(case["ss"])[0] is None or \
-            validated(case["resume"]["cs2"])[0] is None or validated(case["resume"]["ss2"])[0] is None:
+def evaluate_resume(ctx, case, pending=None):
+    vs = [validated(case["cs"])[0], validated(case["ss"])[0], validated(case["resume"]["cs2"])[0],
+          validated(case["resume"]["ss2"])[0]]
+    if any(v is None for v in vs):
         ctx.count("skipped:invalid-settings")
         return
     from .. import lab
-    L1, L2, cap2 = run_resume(case)
+    mode = case["resume"].get("mode", "id")
+    try:
+        L1, L2, cap2 = run_resume(case)
+    except ValueError as e:
+        ctx.count("skipped:ValueError " + str(e)[:40])
+        return
     if L2 is None:
-        ctx.count("resumption:first handshake failed")
+        ctx.count("resumption[%s]:first handshake failed" % mode)
         return
     c, s = L2.client, L2.server
-    key = ("resume", enc_settings(validated(case["cs"])[0]), enc_settings(validated(case["ss"])[0]),
-           enc_settings(validated(case["resume"]["cs2"])[0]), enc_settings(validated(case["resume"]["ss2"])[0]), case["scred"])
+    key = ("resume", mode, enc_settings(vs[0]), enc_settings(vs[1]), enc_settings(vs[2]), enc_settings(vs[3]),
+           case["scred"], case.get("ccred"), case.get("reqCert"))
     ctx.case(key=key, nontrivial=True, sample=None)
-    if c.state == "done" and s.state == "done":
-        ctx.count("resumption:second handshake %s" % ("resumed" if L2.client.conn.resumed else "full"))
+    completed = c.state == "done" and s.state == "done"
+    if completed:
+        ctx.count("resumption[%s]:second handshake %s" % (mode, "resumed" if L2.client.conn.resumed else "full"))
         for k, what in oracle_resumed(ctx, case, L2, cap2):
-            ctx.violation(k, what, dict(jsonable_case(case), stage="resumption", key=k))
+            ctx.violation(k, what + "  [%s resumption]" % mode, dict(jsonable_case(case), stage="resumption", key=k))
     else:
-        ctx.count("resumption:second handshake failed (%s / %s)" % (lab.exc_class(c.exc), lab.exc_class(s.exc)))
+        ctx.count("resumption[%s]:second handshake failed (%s / %s)" % (mode, lab.exc_class(c.exc), lab.exc_class(s.exc)))
+    # a declined or unusable session must fall back to a full handshake: whenever the two CURRENT policies
+    # negotiate (model), the second connection completes.  Not judged: the client's own argument check
+    # (ValueError: its new settings no longer offer the session's suite).
+    client_arg_error = c.state == "error" and isinstance(c.exc, ValueError)
+    # not modelled (reported as c19:tls12-ticket-vs-record-size-limit): a TLS <= 1.2 server with ticketKeys sends
+    # the NewSessionTicket in one unprotected record before it applies the client's record_size_limit, and the
+    # client already enforces its limit on it -> record_overflow when the limit is below the ticket size
+    rsl2 = case["resume"]["cs2"].get("record_size_limit")
+    ticket_overflow = mode != "id" and rsl2 and rsl2 < 1024 and lab.exc_class(c.exc) == "local_alert:22"
+    if ticket_overflow:
+        ctx.count("unmodelled:record_overflow on the TLS<=1.2 NewSessionTicket (small client record_size_limit)")
+    if pending is not None and not client_arg_error and not ticket_overflow:
+        c2 = dict(case, cs=case["resume"]["cs2"], ss=case["resume"]["ss2"])
+        pending.append(("resumption-fallback", case, completed, enc_case(c2, vs[2], vs[3])))
 
 
 def gen_resume_case(ctx, idx):
     """policy A for the first handshake, policy B (a change of the cipher/MAC/key-exchange names, versions or
-    record size limit on either side) for the second"""
+    record size limit, mostly on the server) for the second; session-ID, TLS <= 1.2 ticket or TLS 1.3 ticket"""
+    from tlslite import handshakesettings as hs
     rng = ctx.rng
+    mode = rng.choice(["id", "ticket12", "ticket12", "tls13", "tls13"])
     base = default_fields()
-    base["maxVersion"] = (3, 3)
+    if mode != "tls13":
+        base["maxVersion"] = (3, 3)
     for _ in range(30):
         cs = gen_settings(rng, base, rng.choice([0.0, 0.05, 0.1]), "client")
         ss = gen_settings(rng, base, rng.choice([0.0, 0.05, 0.1]), "server")
         for d in (cs, ss):
-            if tuple(d["maxVersion"]) > (3, 3):
+            if mode != "tls13" and tuple(d["maxVersion"]) > (3, 3):
                 d["maxVersion"] = (3, 3)
+            if mode == "tls13":
+                d["maxVersion"] = (3, 4)
             if tuple(d["minVersion"]) > tuple(d["maxVersion"]):
                 d["minVersion"] = d["maxVersion"]
+            # the flags a resumed session carries must not change on the side that offers them
+            d["requireExtendedMasterSecret"] = False
+        if mode != "tls13" and rng.random() < 0.5:
+            # CBC suites: encrypt-then-MAC is in play
+            cs["cipherNames"] = subset(rng, ["aes128", "aes256", "3des"])
+            if rng.random() < 0.3:
+                rng.choice([cs, ss])["useEncryptThenMAC"] = False
+        if rng.random() < 0.2:
+            rng.choice([cs, ss])["useExtendedMasterSecret"] = False
         cs2, ss2 = copy.deepcopy(cs), copy.deepcopy(ss)
-        from tlslite import handshakesettings as hs
-        for d in (cs2, ss2):
-            q = rng.random()
-            if q < 0.35:
+        for d, w in ((ss2, 0.7), (cs2, 0.15)):
+            if rng.random() > w:
+                continue
+            # (the client keeps offering the session's suite: a ticket for a suite it no longer offers is
+            # answered with illegal_parameter, a legitimate alert)
+            q = rng.random() if d is ss2 else 0.55 + 0.45 * rng.random()
+            if q < 0.3:
                 d["cipherNames"] = subset(rng, hs.CIPHER_NAMES, keep=rng.randint(1, 3))
-            elif q < 0.5:
+            elif q < 0.45:
                 d["macNames"] = subset(rng, hs.MAC_NAMES, keep=rng.randint(1, 3))
-            elif q < 0.6:
+            elif q < 0.55:
                 d["keyExchangeNames"] = subset(rng, ["rsa", "dhe_rsa", "ecdhe_rsa", "ecdhe_ecdsa"], keep=rng.randint(1, 3))
-            elif q < 0.7:
-                v = rng.choice([(3, 1), (3, 2), (3, 3)])
-                d["minVersion"] = d["maxVersion"] = v
-            elif q < 0.85:
+            elif q < 0.75:
+                v = rng.choice([(3, 1), (3, 2), (3, 3)] + ([(3, 4)] if mode == "tls13" else []))
+                if d is ss2 and rng.random() < 0.5:
+                    d["maxVersion"] = v
+                    if tuple(d["minVersion"]) > v:
+                        d["minVersion"] = v
+                else:
+                    d["minVersion"] = d["maxVersion"] = v
+            elif q < 0.9:
                 d["record_size_limit"] = rng.choice(RSLS)
         if all(validated(d)[0] is not None for d in (cs, ss, cs2, ss2)):
             break
+    req = rng.random() < 0.25
     return {"fault": None, "cs": cs, "ss": ss, "cflavour": "cert", "sflavour": "cert",
-            "scred": rng.choice(["rsa", "rsa", "ecdsa", "dsa"]), "ccred": None, "reqCert": False,
+            "scred": rng.choice(["rsa", "rsa", "ecdsa", "dsa"] if mode != "tls13" else ["rsa", "ecdsa", "ed25519"]),
+            "ccred": rng.choice(["client_rsa", "client_ecdsa"]) if req else None, "reqCert": req,
             "calpn": None, "salpn": None, "sni": rng.choice([None, "example.com"]), "ssni": None,
             "srp_bits": 0, "srp_user_known": True, "seed": ctx.seed, "index": idx,
-            "resume": {"cs2": cs2, "ss2": ss2}}
+            "resume": {"mode": mode, "cs2": cs2, "ss2": ss2}}
 
 
 def directed_resume_cases(ctx):
-    base = default_fields()
-    base["maxVersion"] = (3, 3)
     out = []
 
-    def mk(cs=None, ss=None, cs2=None, ss2=None, scred="rsa"):
+    def mk(mode, cs=None, ss=None, cs2=None, ss2=None, scred="rsa", ccred=None, sni=None):
+        base = default_fields()
+        if mode != "tls13":
+            base["maxVersion"] = (3, 3)
         a = dict(copy.deepcopy(base), **(cs or {}))
         b = dict(copy.deepcopy(base), **(ss or {}))
-        return {"fault": None, "cs": a, "ss": b, "cflavour": "cert", "sflavour": "cert", "scred": scred, "ccred": None,
-                "reqCert": False, "calpn": None, "salpn": None, "sni": None, "ssni": None, "srp_bits": 0,
+        return {"fault": None, "cs": a, "ss": b, "cflavour": "cert", "sflavour": "cert", "scred": scred, "ccred": ccred,
+                "reqCert": bool(ccred), "calpn": None, "salpn": None, "sni": sni, "ssni": None, "srp_bits": 0,
                 "srp_user_known": True, "seed": ctx.seed, "index": -1,
-                "resume": {"cs2": dict(copy.deepcopy(a), **(cs2 or {})), "ss2": dict(copy.deepcopy(b), **(ss2 or {}))}}
-    # unchanged policies: plain resumption
-    out.append(mk())
-    # the server's policy is tightened while its cache is kept
-    out.append(mk(cs={"cipherNames": ["aes128gcm", "aes256gcm"]}, ss2={"cipherNames": ["aes256gcm"]}))
-    out.append(mk(cs={"cipherNames": ["aes128", "aes256"]}, ss2={"cipherNames": ["aes256"]}))
-    out.append(mk(ss2={"macNames": ["sha"]}))
-    out.append(mk(ss2={"keyExchangeNames": ["rsa"]}))
-    out.append(mk(ss2={"minVersion": (3, 2), "maxVersion": (3, 2)}))
-    out.append(mk(cs={"maxVersion": (3, 2)}, ss2={"minVersion": (3, 3)}))
-    # record size limits on the abbreviated handshake
-    for a, b in ((None, None), (1000, 2000), (2 ** 14, 512), (64, 64)):
-        out.append(mk(cs={"record_size_limit": 4096}, ss={"record_size_limit": 8192},
-                      cs2={"record_size_limit": a} if a else {}, ss2={"record_size_limit": b} if b else {}))
-    out.append(mk(cs={"cipherNames": ["aes128"]}, ss={"record_size_limit": 700}))
+                "resume": {"mode": mode, "cs2": dict(copy.deepcopy(a), **(cs2 or {})), "ss2": dict(copy.deepcopy(b), **(ss2 or {}))}}
+    for mode in ("id", "ticket12", "tls13"):
+        # unchanged policies: plain resumption (with and without SNI / client certificate)
+        out.append(mk(mode))
+        out.append(mk(mode, sni="example.com", ccred="client_rsa"))
+        # the server's policy is tightened while its cache / ticket key is kept
+        out.append(mk(mode, cs={"cipherNames": ["aes128gcm", "aes256gcm"]}, ss2={"cipherNames": ["aes256gcm"]}))
+        out.append(mk(mode, ss2={"macNames": ["sha", "aead"], "cipherNames": ["aes128gcm", "aes128"]}))
+        # record size limits on the abbreviated handshake
+        for a, b in ((None, None), (1000, 2000), (2 ** 14, 512), (64, 64)):
+            out.append(mk(mode, cs={"record_size_limit": 4096}, ss={"record_size_limit": 8192},
+                          cs2={"record_size_limit": a} if a else {}, ss2={"record_size_limit": b} if b else {}))
+        out.append(mk(mode, ss={"record_size_limit": 700}))
+        # the version the session was made for is no longer the one negotiated
+        out.append(mk(mode, ss2={"maxVersion": (3, 2)}))
+        out.append(mk(mode, ss2={"maxVersion": (3, 3), "minVersion": (3, 3)}))
+        out.append(mk(mode, cs={"cipherNames": ["aes128gcm", "aes128"]}, ss2={"maxVersion": (3, 1)}))
+    for mode in ("id", "ticket12"):
+        # CBC suites: encrypt-then-MAC and extended master secret on / off
+        for etm in (True, False):
+            for ems in (True, False):
+                out.append(mk(mode, cs={"cipherNames": ["aes128"], "useEncryptThenMAC": etm, "useExtendedMasterSecret": ems}))
+                out.append(mk(mode, cs={"cipherNames": ["aes256", "3des"]},
+                              ss={"useEncryptThenMAC": etm, "useExtendedMasterSecret": ems}, scred="ecdsa"))
+        out.append(mk(mode, cs={"cipherNames": ["aes128", "aes256"]}, ss2={"cipherNames": ["aes256"]}))
+        out.append(mk(mode, ss2={"keyExchangeNames": ["rsa"]}))
+        out.append(mk(mode, ss2={"minVersion": (3, 2), "maxVersion": (3, 2)}))
+        out.append(mk(mode, cs={"maxVersion": (3, 2)}, ss2={"minVersion": (3, 3)}))
     return out
 
 
@@ -1208,6 +1310,12 @@ def flush(ctx, pending):
         if stream == "compatible":
             judge_compatible(ctx, case, want, line, m)
             continue
+        if stream == "resumption-fallback":
+            ctx.count("resumption-fallback:model %s live %s" % ("ok" if m.startswith("ok ") else "fail", "completed" if want else "failed"))
+            if m.startswith("ok ") and not want:
+                ctx.disagree(stream, {"case": jsonable_case(case), "line": line}, m,
+                             "second connection (session offered) did not complete although the current policies negotiate")
+            continue
         if m != want:
             ctx.disagree(stream, {"case": jsonable_case(case), "line": line}, m, want)
     del pending[:]
@@ -1241,13 +1349,14 @@ def run(ctx):
         evaluate(ctx, case, pending)
     flush(ctx, pending)
     for case in directed_resume_cases(ctx):
-        evaluate_resume(ctx, case)
+        evaluate_resume(ctx, case, pending)
+    flush(ctx, pending)
     n = ctx.pick(3400, 60000)
     for i in range(n):
         if time.time() - t0 > budget:
             break
-        if i % 9 == 8:
-            evaluate_resume(ctx, gen_resume_case(ctx, i))
+        if i % 6 == 5:
+            evaluate_resume(ctx, gen_resume_case(ctx, i), pending)
             continue
         evaluate(ctx, gen_case(ctx, i), pending)
         if len(pending) >= 200:
@@ -1272,9 +1381,21 @@ def replay(ctx, rep):
             case["resume"][k]["minVersion"] = tuple(case["resume"][k]["minVersion"])
             case["resume"][k]["maxVersion"] = tuple(case["resume"][k]["maxVersion"])
         L1, L2, cap2 = run_resume(case)
-        if L2 is None or not (L2.client.state == "done" and L2.server.state == "done"):
-            print("second handshake did not complete on both ends")
+        if L2 is None:
+            print("first handshake did not complete")
             return False
+        if not (L2.client.state == "done" and L2.server.state == "done"):
+            from .. import lab
+            print("second connection did not complete: client %s, server %s"
+                  % (lab.exc_class(L2.client.exc), lab.exc_class(L2.server.exc)))
+            lc = ctx.lean()
+            if lc is None or isinstance(L2.client.exc, ValueError):
+                return False
+            c2 = dict(case, cs=case["resume"]["cs2"], ss=case["resume"]["ss2"])
+            m = lc.ask(enc_case(c2, validated(c2["cs"])[0], validated(c2["ss"])[0]))
+            print("model for the current policies:", m)
+            # a session that cannot be resumed must fall back to a full handshake
+            return m.startswith("ok ")
         still = False
         for k, what in oracle_resumed(ctx, case, L2, cap2):
             print("  oracle:", k, "-", what)
